@@ -30,6 +30,7 @@ var table = map[string]func(*core.Ctx){
 	"C12": props.C12,
 	"C10": props.C10,
 	"C17": props.C17,
+	"C16": props.C16,
 	"C20": props.C20,
 	"C13": props.C13,
 }
